@@ -1,3 +1,126 @@
-From Clip Require Import model.OffsetPlan.
-Theorem C07_stub : True. Proof. exact I. Qed.
-Print Assumptions C07_stub.
+(* C07 -- open-path offsetting produces the stroke of the requested width and caps.
+   Models: model/OffsetPlan.v (which routine, end type, delta every path of a call gets), model/OffsetGeom.v (binary64
+   model of OffsetOpenPath / OffsetOpenJoined / caps / single points and their index schedule, tied bit for bit to
+   DoGroupOffset by checks/C07.py), proofs/OffsetReal.v (the real-valued cap formulas).
+   NOT proved (level: partial): that the clean-up union of the raw curves is the stroke region -- validated by
+   checks/C07.py against the exact stroke specification proofs/OffsetSpec.v (c07_class).  The join constructions are
+   those of C06 (Properties_C06.v). *)
+From Coq Require Import ZArith List Bool Floats Reals.
+From Clip Require Import base.Geom base.FloatModel model.OffsetPlan model.OffsetGeom
+  proofs.OffsetReal proofs.OffsetPlanProofs proofs.OffsetGeomProofs.
+Import ListNotations.
+#[local] Set Warnings "-inexact-float".
+
+(* Every path of a call is offset by the routine and with the end type that ITS OWN group and its own length select
+   (two-point Joined path: open path with square/round ends; otherwise the group's end type), and open groups use
+   group_delta_ = |delta| -- whatever paths and groups were added before it.
+   (Refuted for the code before offset-endtype-leak.patch: witness in the header of model/OffsetPlan.v.) *)
+Theorem C07_plan_local : forall (gs : list group) (delta : float) (e : pentry),
+  In e (plan gs delta) ->
+  exists g, nth_error gs (pe_group e) = Some g /\
+    pe_action e = own_action g delta (pe_len e) /\
+    (pe_len e <> 1%nat -> pe_end e = end_of g (pe_len e)) /\
+    (g_end g <> EPolygon -> pe_delta e = fabs delta).
+Proof. exact plan_local. Qed.
+Print Assumptions C07_plan_local.
+
+(* +delta and -delta give the same plan for open paths (and take the same early-return decision) *)
+Theorem C07_sign_symmetric : forall (gs : list group) (delta : float),
+  all_open gs = true ->
+  plan_open gs delta = plan_open gs (fneg delta) /\ insignificant (fneg delta) = insignificant delta.
+Proof. exact sign_symmetric. Qed.
+Print Assumptions C07_sign_symmetric.
+
+(* the in-place reversal of OffsetOpenPath: norms'[i] = -norms[i-1] (1 <= i <= highI), norms'[0] = norms'[highI] *)
+Theorem C07_normals_reversed : forall (ns ns' : list ptd) (highI : Z),
+  (1 <= highI)%Z -> reversed_norms ns highI = Some ns' ->
+  length ns' = length ns /\
+  (forall i, (1 <= i <= highI)%Z -> getn ns' i = option_map negd (getn ns (i - 1))) /\
+  getn ns' 0 = getn ns' highI /\
+  (forall i, (highI < i)%Z -> getn ns' i = getn ns i).
+Proof. exact normals_reversed. Qed.
+Print Assumptions C07_normals_reversed.
+
+(* ... which are the normals of the reversed path, as the backward pass indexes them (for any antisymmetric normal
+   function, as GetUnitNormal is up to the sign of zero) *)
+Theorem C07_normals_reversed_path : forall (N : pt -> pt -> ptd),
+  (forall a b, N b a = negd (N a b)) ->
+  forall (p : path) (ns' : list ptd),
+  (2 <= length p)%nat ->
+  let highI := (Z.of_nat (length p) - 1)%Z in
+  reversed_norms (normalsN N p) highI = Some ns' ->
+  forall j, (1 <= j <= highI)%Z -> getn ns' j = getn (normalsN N (rev p)) (highI - j).
+Proof. exact normals_reversed_path. Qed.
+Print Assumptions C07_normals_reversed_path.
+
+(* butt cap: p -+ d n: at distance d, on the line through p perpendicular to the path direction (flat cut at p) *)
+Theorem C07_butt_cap : forall (n : vec) (d sgn : R),
+  is_unit n -> sgn = 1%R \/ sgn = (-1)%R ->
+  let c := vscale (sgn * d) n in
+  norm2 c = (d * d)%R /\ vdot c (vy n, (- vx n)%R) = 0%R.
+Proof. exact butt_cap. Qed.
+Print Assumptions C07_butt_cap.
+
+(* square cap: corners d beyond p along the path direction and d to either side (distance d sqrt 2) *)
+Theorem C07_square_cap : forall (n : vec) (d sgn : R),
+  is_unit n -> sgn = 1%R \/ sgn = (-1)%R ->
+  let v := (vy n, (- vx n)%R) in
+  let c := vadd (vscale d v) (vscale (sgn * d) n) in
+  vdot c v = d /\ vdot c n = (sgn * d)%R /\ norm2 c = (2 * (d * d))%R.
+Proof. exact square_cap. Qed.
+Print Assumptions C07_square_cap.
+
+(* the intersection DoSquare computes for j = k is that corner *)
+Theorem C07_square_cap_intersection : forall (n x : vec) (d : R),
+  is_unit n ->
+  let v := (vy n, (- vx n)%R) in
+  vdot x v = d -> vdot x n = d -> x = vadd (vscale d v) (vscale d n).
+Proof. exact square_cap_intersection. Qed.
+Print Assumptions C07_square_cap_intersection.
+
+(* round cap: every emitted point lies on the circle of radius d around the end point *)
+Theorem C07_round_cap : forall (c s d : R) (n : vec) (i : nat),
+  (c * c + s * s = 1)%R -> is_unit n -> norm2 (rot_iter c s i (vscale (- d) n)) = (d * d)%R.
+Proof. exact round_cap. Qed.
+Print Assumptions C07_round_cap.
+
+(* OffsetOpenPath reads path[i] / norms[i] only inside [0, len) for paths of at least two points ... *)
+Theorem C07_accesses_in_bounds : forall len : Z, (2 <= len)%Z -> forallb (in_bounds len) (open_path_accesses len) = true.
+Proof. exact open_accesses_in_bounds. Qed.
+Print Assumptions C07_accesses_in_bounds.
+
+(* ... and not for an empty path (DESIGN 9.4, robustness, owned by C10): the first access is path[0] *)
+Theorem C07_accesses_in_bounds_refuted :
+  exists len : Z, (0 <= len)%Z /\ forallb (in_bounds len) (open_path_accesses len) = false /\ In (APath, 0%Z) (open_path_accesses len).
+Proof. exact open_accesses_in_bounds_refuted. Qed.
+Print Assumptions C07_accesses_in_bounds_refuted.
+
+Theorem C07_joined_accesses_in_bounds : forall len : Z, (1 <= len)%Z -> forallb (in_bounds len) (open_joined_accesses len) = true.
+Proof. exact joined_accesses_in_bounds. Qed.
+Print Assumptions C07_joined_accesses_in_bounds.
+
+Theorem C07_joined_accesses_in_bounds_refuted : forallb (in_bounds 0) (open_joined_accesses 0) = false.
+Proof. exact joined_accesses_in_bounds_refuted. Qed.
+Print Assumptions C07_joined_accesses_in_bounds_refuted.
+
+(* single points: the square of half-side ceil|delta| (every join type but Round) ... *)
+Theorem C07_single_point_square : forall sin_f cos_f c jt v,
+  jt <> JRound ->
+  let d := F2Z_ceil (PrimFloat.abs (c_gd c)) in
+  single_point sin_f cos_f c jt v = [ (px v - d, py v - d); (px v + d, py v - d); (px v + d, py v + d); (px v - d, py v + d) ]%Z.
+Proof. exact single_point_square. Qed.
+Print Assumptions C07_single_point_square.
+
+(* ... or Ellipse with radius |delta| and ceil(steps_per_rad_ 2 PI) steps (Round), *)
+Theorem C07_single_point_circle : forall sin_f cos_f c v,
+  single_point sin_f cos_f c JRound v =
+  ellipse sin_f cos_f v (PrimFloat.abs (c_gd c)) (PrimFloat.abs (c_gd c))
+          (if fgt (c_spr c) 0%float then F2Z_ceil (c_spr c * 2 * PI)%float else 0%Z).
+Proof. exact single_point_circle. Qed.
+Print Assumptions C07_single_point_circle.
+
+(* whose points all lie on the circle of radius r *)
+Theorem C07_single_point_on_circle : forall (co si r : R) (i : nat),
+  (co * co + si * si = 1)%R -> norm2 (vscale r (rot_iter co si i (1%R, 0%R))) = (r * r)%R.
+Proof. exact ellipse_points_on_circle. Qed.
+Print Assumptions C07_single_point_on_circle.
